@@ -430,13 +430,16 @@ Section Exec.
   (* Vec::resize(n, 0) *)
   Definition resize0 (l : list Z) (n : N) : list Z := firstn (nn n) l ++ repeat 0%Z (nn n - length l).
 
-  (* Machine::execute_main: the state storage is grown to main's skeleton, base_pointer 0 -> 1, execute(0) *)
+  (* Machine::execute_main: the initialiser runs on a state storage of its own (cursor 0, zero words of main's skeleton
+     size); dsp's storage (std::mem::take) is put back afterwards; base_pointer 0 -> 1, execute(0) *)
   Definition exec_main (fuel : nat) (m : mach) : outcome :=
     match rd1 (p_funs p) 0 with
     | None => Fault FnIndexOOB
     | Some f =>
-        let m := if lenN (m_state m) <? f_ssize f then set_state m (resize0 (m_state m) (f_ssize f)) else m in
-        run fuel 0 1 0 m
+        match run fuel 0 1 0 (mkMach (m_stack m) (m_globals m) 0 (repeat 0%Z (nn (f_ssize f)))) with
+        | Ret n m' => Ret n (mkMach (m_stack m') (m_globals m') (m_pos m) (m_state m))
+        | o => o
+        end
     end.
 
   (* VmDspRuntime::set_input (set_stack_range(0, input) with base pointer 1) then Machine::execute_idx(dsp):
